@@ -9,6 +9,7 @@ import (
 	"context"
 	"crypto/ed25519"
 	"fmt"
+	"crypto/tls"
 	"net"
 	"os"
 	"runtime"
@@ -341,6 +342,40 @@ func vC10Scenario(name string, seed uint64) string {
 			return "stop-hangs/" + strings.Join(vParked(), ",")
 		}
 		return w.aftermath(nil, time.Since(start))
+	case "peers-still-connecting-at-stop":
+		// peers which have a TCP connection, or have finished the TLS handshake, but have not sent the websocket upgrade
+		// when Stop lands: Stop closes them too - their sockets end, and nothing they send afterwards is read or answered
+		w := vC10Setup(r)
+		plain, err := net.DialTimeout("tcp", w.addr, 2*time.Second)
+		if err != nil {
+			return "setup"
+		}
+		defer plain.Close()
+		tc, err := tls.DialWithDialer(&net.Dialer{Timeout: 2 * time.Second}, "tcp", w.addr, vClientTLS(w.keys[0], w.skey.Pub))
+		if err != nil {
+			return "setup"
+		}
+		defer tc.Close()
+		time.Sleep(50 * time.Millisecond)
+		start := time.Now()
+		if !vStop(w.s, 6*time.Second) {
+			return "stop-hangs/" + strings.Join(vParked(), ",")
+		}
+		took := time.Since(start)
+		// after Stop: a request on the TLS connection is not answered, and both sockets end
+		_, _ = tc.Write([]byte("GET / HTTP/1.1\r\nHost: x\r\n\r\n"))
+		for name, c := range map[string]net.Conn{"tcp-only": plain, "tls-done": tc} {
+			c.SetReadDeadline(time.Now().Add(1500 * time.Millisecond))
+			buf := make([]byte, 512)
+			n, err := c.Read(buf)
+			if n > 0 {
+				return fmt.Sprintf("stopped-server-answered-a-peer-which-was-still-connecting/%s/%q", name, string(buf[:n])[:20])
+			}
+			if ne, ok := err.(net.Error); ok && ne.Timeout() {
+				return "connection-left-open-after-stop/" + name
+			}
+		}
+		return w.aftermath(nil, took)
 	case "write-timed-out-before-stop":
 		// a peer which stops reading: the server's write times out and its write pump leaves; the
 		// session must be gone completely (socket, read pump) when Stop has returned
@@ -486,7 +521,7 @@ func vC10Scenario(name string, seed uint64) string {
 	return "unknown-scenario"
 }
 
-var vC10Names = []string{"open-sessions", "idle-longer-than-write-timeout", "calls-both-directions", "handshakes-in-progress", "concurrent-admin", "write-timed-out-before-stop", "simultaneous-stops", "rejected-handshakes-then-stop"}
+var vC10Names = []string{"open-sessions", "idle-longer-than-write-timeout", "calls-both-directions", "handshakes-in-progress", "concurrent-admin", "write-timed-out-before-stop", "simultaneous-stops", "rejected-handshakes-then-stop", "peers-still-connecting-at-stop"}
 
 func TestVerifC10Child(t *testing.T) {
 	spec := vChildSpec()
